@@ -485,6 +485,14 @@ class LangGen:
                                 break
                         if done:
                             break
+                    # (f[U])*: the field leads to a strict ancestor of U, the filter brings it back to U; the walk must
+                    # stop at assets that are not U (it is not the same as (f*)[U])
+                    cands2 = [f for f, lst in lang.fields_of(u).items() if lst[0][1] != u and lang.is_sub(u, lst[0][1])]
+                    if cands2 and cfg.subtype and rng.random() < 0.5:
+                        f = rng.choice(sorted(cands2))
+                        done = ({'type': 'transitive', 'stepExpression': {'type': 'subType', 'subType': u,
+                                                                          'stepExpression': {'type': 'field', 'name': f}}}, u)
+                        break
                     cands = [f for f, lst in lang.fields_of(u).items() if lst[0][1] == u]
                     if cands:
                         f = rng.choice(sorted(cands))
